@@ -1,5 +1,8 @@
 #!/bin/sh
-# Build the static checker offline from files on disk.
+# Build the static checker offline from files on disk and warm the Go build cache for /repo's packages.
 set -e
 cd "$(dirname "$0")"
-exec ./build.sh
+./build.sh
+. ./env.sh
+# one load of the repository compiles the export data of its dependencies into the build cache (cold: ~1-2 min)
+bin/verifcheck -prop C14 -tier quick -no-evidence >/dev/null 2>&1 || true
